@@ -118,5 +118,422 @@ theorem dotS_set_self (p : List ℝ) (j : Nat) (t : ℝ) (hj : j < p.length) :
       rw [ih j (by simpa using hj)]
       ring
 
+/-! ### multinomial: log-sum-exp, per-sample derivative, score rows, sum rule (round 3) -/
+
+theorem sum_exp_pos (a : ℝ) (as : List ℝ) : 0 < ((a :: as).map Real.exp).sum := by
+  have hnn : ∀ x ∈ (as).map Real.exp, 0 ≤ x := by
+    intro x hx
+    obtain ⟨n, -, rfl⟩ := List.mem_map.mp hx
+    exact (Real.exp_pos _).le
+  have := List.sum_nonneg hnn
+  simp only [List.map_cons, List.sum_cons]
+  have := Real.exp_pos a
+  linarith
+
+theorem sum_exp_shift (l : List ℝ) (m : ℝ) :
+    (l.map fun e => Real.exp (e - m)).sum = Real.exp (-m) * (l.map Real.exp).sum := by
+  induction l with
+  | nil => simp
+  | cons b bs ih =>
+    simp only [List.map_cons, List.sum_cons, ih]
+    rw [show b - m = b + -m by ring, Real.exp_add]
+    ring
+
+/-- **`log_sum_exp` of a non-empty row is `ln Σ exp`** (the `1e-15` floor is inactive, the subtracted maximum cancels) -/
+theorem logSumExpRow_eq (eps : ℝ) (heps : eps ≤ 1) (a : ℝ) (as : List ℝ) :
+    logSumExpRow eps (a :: as) = Real.log (((a :: as).map Real.exp).sum) := by
+  set m := as.foldl maxS a with hm
+  have hmem : m ∈ a :: as := by
+    rcases foldl_maxS_mem as a with h | h
+    · rw [hm, h]; simp
+    · exact List.mem_cons_of_mem _ h
+  set S := ((a :: as).map fun e => Real.exp (e - m)).sum with hS
+  have hS1 : 1 ≤ S := by
+    have hnn : ∀ x ∈ (a :: as).map (fun e => Real.exp (e - m)), 0 ≤ x := by
+      intro x hx
+      obtain ⟨n, -, rfl⟩ := List.mem_map.mp hx
+      exact (Real.exp_pos _).le
+    have := List.single_le_sum hnn (Real.exp (m - m)) (List.mem_map.mpr ⟨m, hmem, rfl⟩)
+    rw [sub_self, Real.exp_zero] at this
+    exact this
+  have hlse : logSumExpRow eps (a :: as) = Real.log S + m := by
+    simp only [logSumExpRow, maxList]
+    show Real.log (maxS (List.foldl (fun acc e => acc + Real.exp (e - m)) 0 (a :: as)) eps) + m = _
+    rw [foldl_add_exp, zero_add, maxS_eq_max, max_eq_left (le_trans heps hS1)]
+  rw [hlse, hS, sum_exp_shift, Real.log_mul (Real.exp_pos _).ne' (sum_exp_pos a as).ne', Real.log_exp]
+  ring
+
+
+theorem logSumExpRow_eq' (eps : ℝ) (heps : eps ≤ 1) (h : List ℝ) (hne : h ≠ []) :
+    logSumExpRow eps h = Real.log ((h.map Real.exp).sum) := by
+  cases h with
+  | nil => exact absurd rfl hne
+  | cons a as => exact logSumExpRow_eq eps heps a as
+
+theorem sum_exp_pos' (h : List ℝ) (hne : h ≠ []) : 0 < (h.map Real.exp).sum := by
+  cases h with
+  | nil => exact absurd rfl hne
+  | cons a as => exact sum_exp_pos a as
+
+/-- list lemma A: subtracting a constant from every score -/
+theorem zipWith_sub_const_sum (h yr : List ℝ) (L : ℝ) (hl : h.length = yr.length) :
+    (List.zipWith (· * ·) (h.map (· - L)) yr).sum = (List.zipWith (· * ·) h yr).sum - L * yr.sum := by
+  induction h generalizing yr with
+  | nil => cases yr with
+    | nil => simp
+    | cons _ _ => simp at hl
+  | cons a as ih =>
+    cases yr with
+    | nil => simp at hl
+    | cons b bs =>
+      simp only [List.map_cons, List.zipWith_cons_cons, List.sum_cons]
+      rw [ih bs (by simpa using hl)]
+      ring
+
+/-- list lemma B: one score changed -/
+theorem zipWith_set_sum (h yr : List ℝ) (c : Nat) (v : ℝ) (hc : c < h.length) :
+    (List.zipWith (· * ·) (h.set c v) yr).sum =
+      (List.zipWith (· * ·) h yr).sum + (v - h.getD c 0) * yr.getD c 0 := by
+  induction h generalizing yr c with
+  | nil => simp at hc
+  | cons a as ih =>
+    cases yr with
+    | nil => simp
+    | cons b bs =>
+      cases c with
+      | zero => simp; ring
+      | succ c =>
+        simp only [List.set_cons_succ, List.zipWith_cons_cons, List.sum_cons, List.getD_cons_succ]
+        rw [ih bs c (by simpa using hc)]
+        ring
+
+/-- list lemma C: `Σ exp` with one score changed -/
+theorem sum_exp_set (h : List ℝ) (c : Nat) (v : ℝ) (hc : c < h.length) :
+    ((h.set c v).map Real.exp).sum = (h.map Real.exp).sum - Real.exp (h.getD c 0) + Real.exp v := by
+  induction h generalizing c with
+  | nil => simp at hc
+  | cons a as ih =>
+    cases c with
+    | zero => simp; ring
+    | succ c =>
+      simp only [List.set_cons_succ, List.map_cons, List.sum_cons, List.getD_cons_succ]
+      rw [ih c (by simpa using hc)]
+      ring
+
+/-- one row of `elem_dot(log_prob, Y)`: `Σ_c (h_c - log_sum_exp h) y_c` -/
+noncomputable def rowLoss (eps : ℝ) (h yr : List ℝ) : ℝ :=
+  (List.zipWith (· * ·) (h.map (· - logSumExpRow eps h)) yr).sum
+
+/-- **per-sample term of the multinomial gradient**: if class score `c` of a sample depends on the coordinate as
+`h_c + ξ (t - w₀)` and the others do not, the sample's negative log-likelihood has derivative
+`(exp(h_c - log_sum_exp h) - y_c) ξ` — `softmax(h)_c - y_c` times the feature (`ξ = 1` for the intercept).  Uses that
+the target row sums to one (one-hot). -/
+theorem row_loss_hasDerivAt (eps : ℝ) (heps : eps ≤ 1) (h yr : List ℝ) (c : Nat) (ξ w0 : ℝ)
+    (hc : c < h.length) (hl : yr.length = h.length) (hy : yr.sum = 1) :
+    HasDerivAt (fun t : ℝ => -(rowLoss eps (h.set c (h.getD c 0 + ξ * (t - w0))) yr))
+      ((Real.exp (h.getD c 0 - logSumExpRow eps h) - yr.getD c 0) * ξ) w0 := by
+  have hne : h ≠ [] := by intro e; simp [e] at hc
+  have hS := sum_exp_pos' h hne
+  set S0 := (h.map Real.exp).sum with hS0
+  set D0 := (List.zipWith (· * ·) h yr).sum with hD0
+  have e : (fun t : ℝ => -(rowLoss eps (h.set c (h.getD c 0 + ξ * (t - w0))) yr)) =
+      fun t : ℝ => Real.log (S0 - Real.exp (h.getD c 0) + Real.exp (h.getD c 0 + ξ * (t - w0))) -
+        (D0 + ξ * (t - w0) * yr.getD c 0) := by
+    funext t
+    have hne' : h.set c (h.getD c 0 + ξ * (t - w0)) ≠ [] := by
+      intro e; have := congrArg List.length e; simp at this; rw [this] at hc; simp at hc
+    unfold rowLoss
+    rw [zipWith_sub_const_sum _ _ _ (by simp [hl]), hy, logSumExpRow_eq' eps heps _ hne', sum_exp_set h c _ hc,
+      zipWith_set_sum h yr c _ hc]
+    ring
+  rw [e]
+  have hin : HasDerivAt (fun t : ℝ => h.getD c 0 + ξ * (t - w0)) ξ w0 := by
+    have := (((hasDerivAt_id w0).sub_const w0).const_mul ξ).const_add (h.getD c 0)
+    simpa using this
+  have hexp : HasDerivAt (fun t : ℝ => S0 - Real.exp (h.getD c 0) + Real.exp (h.getD c 0 + ξ * (t - w0)))
+      (Real.exp (h.getD c 0) * ξ) w0 := by
+    have := (hin.exp).const_add (S0 - Real.exp (h.getD c 0))
+    simpa using this
+  have hval : S0 - Real.exp (h.getD c 0) + Real.exp (h.getD c 0 + ξ * (w0 - w0)) = S0 := by
+    simp
+  have hlog := hexp.log (by rw [hval]; exact hS.ne')
+  rw [hval] at hlog
+  have hlin : HasDerivAt (fun t : ℝ => D0 + ξ * (t - w0) * yr.getD c 0) (ξ * yr.getD c 0) w0 := by
+    have := ((((hasDerivAt_id w0).sub_const w0).const_mul ξ).mul_const (yr.getD c 0)).const_add D0
+    simpa using this
+  have hd := hlog.sub hlin
+  refine hd.congr_deriv ?_
+  rw [logSumExpRow_eq' eps heps h hne, Real.exp_sub, Real.exp_log hS]
+  ring
+
+
+/-- list lemma E: a function on `range k` changed at one point -/
+theorem map_range_update (k c0 : Nat) (f g : Nat → ℝ) (v : ℝ) (hg0 : g c0 = v)
+    (hg : ∀ c, c ≠ c0 → g c = f c) :
+    (List.range k).map g = ((List.range k).map f).set c0 v := by
+  apply List.ext_getElem
+  · simp
+  · intro i h1 h2
+    simp only [List.getElem_map, List.getElem_range, List.getElem_set]
+    by_cases hi : c0 = i
+    · subst hi; simp [hg0]
+    · simp [hi, hg i (Ne.symm hi)]
+
+/-- the class scores of one sample (one row of `scores`) -/
+noncomputable def sc (k : Nat) (row : List ℝ) (params : List (List ℝ)) (b : List ℝ) : List ℝ :=
+  (List.range k).map fun c => dotS row (col params c) + b.getD c 0
+
+theorem scores_eq_map (k : Nat) (x : List (List ℝ)) (params : List (List ℝ)) (b : List ℝ) :
+    scores k x params b = x.map fun row => sc k row params b := rfl
+
+theorem sc_length (k : Nat) (row : List ℝ) (params : List (List ℝ)) (b : List ℝ) :
+    (sc k row params b).length = k := by simp [sc]
+
+theorem sc_getD (k : Nat) (row : List ℝ) (params : List (List ℝ)) (b : List ℝ) (c : Nat) (hc : c < k) :
+    (sc k row params b).getD c 0 = dotS row (col params c) + b.getD c 0 := by
+  simp [sc, List.getD_eq_getElem?_getD, hc]
+
+/-- column `c` of the parameter matrix after entry `(j, c0)` was set to `t` -/
+theorem col_set_entry (params : List (List ℝ)) (j c0 c : Nat) (t : ℝ) (hj : j < params.length)
+    (hc0 : c0 < (params.getD j []).length) :
+    col (params.set j ((params.getD j []).set c0 t)) c =
+      if c = c0 then (col params c0).set j t else col params c := by
+  have hrow : params.getD j [] = params[j] := by simp [List.getD_eq_getElem?_getD, hj]
+  unfold col
+  rw [List.map_set]
+  by_cases h : c = c0
+  · subst h
+    simp only [if_true]
+    congr 1
+    rw [hrow] at hc0 ⊢
+    simp [List.getD_eq_getElem?_getD, hc0]
+  · simp only [h, if_false]
+    rw [hrow]
+    have : (params[j].set c0 t).getD c 0 = params[j].getD c 0 := by
+      simp [List.getD_eq_getElem?_getD, List.getElem?_set, Ne.symm h]
+    rw [this]
+    apply List.ext_getElem
+    · simp
+    · intro i h1 h2
+      simp only [List.getElem_set, List.getElem_map]
+      split_ifs with hij
+      · subst hij; rfl
+      · rfl
+
+
+theorem col_getD (params : List (List ℝ)) (j c : Nat) (hj : j < params.length) :
+    (col params c).getD j 0 = (params.getD j []).getD c 0 := by
+  simp [col, List.getD_eq_getElem?_getD, hj]
+
+/-- scores of one sample after weight `(j, c0)` was set to `t`: only class `c0` moves, affinely -/
+theorem sc_set_weight (k : Nat) (row : List ℝ) (params : List (List ℝ)) (b : List ℝ) (j c0 : Nat) (t : ℝ)
+    (hj : j < params.length) (hc0 : c0 < (params.getD j []).length) :
+    sc k row (params.set j ((params.getD j []).set c0 t)) b =
+      (sc k row params b).set c0
+        ((dotS row (col params c0) + b.getD c0 0) + row.getD j 0 * (t - (params.getD j []).getD c0 0)) := by
+  unfold sc
+  apply map_range_update
+  · rw [col_set_entry params j c0 c0 t hj hc0, if_pos rfl,
+      dotS_set row (col params c0) j t (by simpa [col] using hj), col_getD params j c0 hj]
+    ring
+  · intro c hc
+    rw [col_set_entry params j c0 c t hj hc0, if_neg hc]
+
+theorem sc_set_intercept (k : Nat) (row : List ℝ) (params : List (List ℝ)) (b : List ℝ) (c0 : Nat) (t : ℝ)
+    (hc0 : c0 < b.length) :
+    sc k row params (b.set c0 t) =
+      (sc k row params b).set c0 ((dotS row (col params c0) + b.getD c0 0) + 1 * (t - b.getD c0 0)) := by
+  unfold sc
+  apply map_range_update
+  · simp [List.getD_eq_getElem?_getD, hc0]
+  · intro c hc
+    simp [List.getD_eq_getElem?_getD, List.getElem?_set, Ne.symm hc]
+
+/-- `elem_dot` as a sum of row sums -/
+theorem elemDot_eq (a b : List (List ℝ)) :
+    elemDot a b = ((List.zipWith (fun ra rb => List.zipWith (· * ·) ra rb) a b).map List.sum).sum := by
+  unfold elemDot
+  rw [← List.sum_eq_foldl, List.sum_flatten]
+
+theorem logProb_eq (eps : ℝ) (k : Nat) (x : List (List ℝ)) (params : List (List ℝ)) (b : List ℝ) :
+    logProb eps k x params b =
+      x.map fun row => (sc k row params b).map (· - logSumExpRow eps (sc k row params b)) := by
+  unfold logProb logSumExpRows
+  rw [scores_eq_map]
+  simp [List.zipWith_map_left, List.zipWith_map_right, List.zipWith_self]
+
+/-- the data part of `multi_logistic_loss` is the sum of the per-sample `rowLoss` -/
+theorem elemDot_logProb (eps : ℝ) (k : Nat) (x : List (List ℝ)) (params : List (List ℝ)) (b : List ℝ)
+    (y : List (List ℝ)) :
+    elemDot (logProb eps k x params b) y =
+      (List.zipWith (fun row yr => rowLoss eps (sc k row params b) yr) x y).sum := by
+  rw [elemDot_eq, logProb_eq]
+  simp only [List.zipWith_map_left, List.map_zipWith, rowLoss]
+
+
+/-- **sum rule over the sample list (multinomial)**: if under the coordinate `t` only class score `c0` of every
+sample moves, affinely with slope `ξ row`, the data part of the loss has derivative `Σᵢ (Pᵢc0 - Yᵢc0) ξᵢ` -/
+theorem multi_data_hasDerivAt (eps : ℝ) (heps : eps ≤ 1) (k c0 : Nat) (hc0 : c0 < k)
+    (S : ℝ → List ℝ → List ℝ) (h0 : List ℝ → List ℝ) (ξ : List ℝ → ℝ) (w0 : ℝ)
+    (hS : ∀ t row, S t row = (h0 row).set c0 ((h0 row).getD c0 0 + ξ row * (t - w0)))
+    (hlen : ∀ row, (h0 row).length = k)
+    (x y : List (List ℝ)) (hy : ∀ yr ∈ y, yr.length = k ∧ yr.sum = 1) :
+    HasDerivAt (fun t : ℝ => -(List.zipWith (fun row yr => rowLoss eps (S t row) yr) x y).sum)
+      ((List.zipWith (fun row yr =>
+        (Real.exp ((h0 row).getD c0 0 - logSumExpRow eps (h0 row)) - yr.getD c0 0) * ξ row) x y).sum) w0 := by
+  induction x generalizing y with
+  | nil => simpa using hasDerivAt_const w0 (0 : ℝ)
+  | cons r xs ih =>
+    cases y with
+    | nil => simpa using hasDerivAt_const w0 (0 : ℝ)
+    | cons yr ys =>
+      have hyr := hy yr (by simp)
+      have hhead := row_loss_hasDerivAt eps heps (h0 r) yr c0 (ξ r) w0 (by rw [hlen]; exact hc0)
+        (by rw [hlen]; exact hyr.1) hyr.2
+      have htail := ih ys (fun q hq => hy q (List.mem_cons_of_mem _ hq))
+      have hsum := hhead.add htail
+      have e1 : (fun t : ℝ => -(List.zipWith (fun row yr => rowLoss eps (S t row) yr) (r :: xs) (yr :: ys)).sum) =
+          fun t : ℝ => -(rowLoss eps ((h0 r).set c0 ((h0 r).getD c0 0 + ξ r * (t - w0))) yr) +
+            -(List.zipWith (fun row yr => rowLoss eps (S t row) yr) xs ys).sum := by
+        funext t
+        simp only [List.zipWith_cons_cons, List.sum_cons, hS t r]
+        ring
+      rw [e1]
+      simp only [List.zipWith_cons_cons, List.sum_cons]
+      exact hsum
+
+/-- column `c0` of `softmax(H) - Y` as the code computes it (`multiDiff`) -/
+theorem col_multiDiff (eps : ℝ) (k c0 : Nat) (hc0 : c0 < k) (params : List (List ℝ)) (b : List ℝ)
+    (x y : List (List ℝ)) (hy : ∀ yr ∈ y, yr.length = k ∧ yr.sum = 1) :
+    col (multiDiff eps k x y params b) c0 =
+      List.zipWith (fun row yr => Real.exp ((sc k row params b).getD c0 0 -
+        logSumExpRow eps (sc k row params b)) - yr.getD c0 0) x y := by
+  unfold multiDiff col
+  rw [logProb_eq]
+  induction x generalizing y with
+  | nil => simp
+  | cons r xs ih =>
+    cases y with
+    | nil => simp
+    | cons yr ys =>
+      have hyr := hy yr (by simp)
+      simp only [List.map_cons, List.zipWith_cons_cons]
+      rw [ih ys (fun q hq => hy q (List.mem_cons_of_mem _ hq))]
+      congr 1
+      have h1 : c0 < (sc k r params b).length := by rw [sc_length]; exact hc0
+      have h2 : c0 < yr.length := by rw [hyr.1]; exact hc0
+      simp [List.getD_eq_getElem?_getD, List.getElem?_zipWith, h1, h2, Transc.exp]
+
+theorem dotS_col_zipWith (j : Nat) (f : List ℝ → List ℝ → ℝ) (x y : List (List ℝ)) :
+    dotS (col x j) (List.zipWith f x y) = (List.zipWith (fun row yr => f row yr * row.getD j 0) x y).sum := by
+  induction x generalizing y with
+  | nil => simp [col, dotS_nil_left]
+  | cons r xs ih =>
+    cases y with
+    | nil => simp [col, dotS_eq_sum]
+    | cons yr ys =>
+      have := ih ys
+      simp only [col, List.map_cons, List.zipWith_cons_cons, dotS_cons, List.sum_cons] at this ⊢
+      rw [this]; ring
+
+theorem sumS_zipWith_one (f : List ℝ → List ℝ → ℝ) (x y : List (List ℝ)) :
+    sumS (List.zipWith f x y) = (List.zipWith (fun row yr => f row yr * 1) x y).sum := by
+  rw [sumS_eq_sum]; simp
+
+
+theorem elemDot_cons (a b : List ℝ) (as bs : List (List ℝ)) :
+    elemDot (a :: as) (b :: bs) = (List.zipWith (· * ·) a b).sum + elemDot as bs := by
+  simp [elemDot_eq]
+
+theorem elemDot_set_self (params : List (List ℝ)) (j : Nat) (r' : List ℝ) (hj : j < params.length) :
+    elemDot (params.set j r') (params.set j r') =
+      elemDot params params - dotS (params.getD j []) (params.getD j []) + dotS r' r' := by
+  induction params generalizing j with
+  | nil => simp at hj
+  | cons a as ih =>
+    cases j with
+    | zero => simp [elemDot_cons, dotS_eq_sum]; ring
+    | succ j =>
+      simp only [List.set_cons_succ, elemDot_cons, List.getD_cons_succ]
+      rw [ih j (by simpa using hj)]
+      ring
+
+/-- the parameter matrix with entry `(j, c)` replaced by `t` -/
+def setEntry (w : List (List ℝ)) (j c : Nat) (t : ℝ) : List (List ℝ) := w.set j ((w.getD j []).set c t)
+
+
+/-! ### first-order optimality helpers -/
+
+/-- if each coordinate function has the listed derivative, "all listed derivatives vanish" is the same as "every
+partial derivative is zero" (first-order optimality) -/
+theorem stationary_iff_of_hasDerivAt (n : Nat) (f : Nat → ℝ → ℝ) (g a : Nat → ℝ)
+    (h : ∀ j, j < n → HasDerivAt (f j) (g j) (a j)) :
+    (∀ j, j < n → g j = 0) ↔ (∀ j, j < n → HasDerivAt (f j) 0 (a j)) := by
+  constructor
+  · intro h0 j hj; rw [← h0 j hj]; exact h j hj
+  · intro h0 j hj; exact (h j hj).unique (h0 j hj)
+
+/-- the oracle's test `‖g‖₂ ≤ tol` bounds every entry of `g` -/
+theorem entry_abs_le_of_norm_le (g : List ℝ) (tol : ℝ) (htol : 0 ≤ tol)
+    (hn : (g.map (· ^ 2)).sum ≤ tol ^ 2) : ∀ v ∈ g, |v| ≤ tol := by
+  intro v hv
+  have hnn : ∀ x ∈ g.map (· ^ 2), 0 ≤ x := by
+    intro x hx
+    obtain ⟨u, -, rfl⟩ := List.mem_map.mp hx
+    exact sq_nonneg u
+  have h1 : v ^ 2 ≤ (g.map (· ^ 2)).sum := List.single_le_sum hnn _ (List.mem_map.mpr ⟨v, hv, rfl⟩)
+  exact abs_le_of_sq_le_sq (le_trans h1 hn) htol
+
+theorem headD_drop (w : List ℝ) (n : Nat) : (w.drop n).headD 0 = w.getD n 0 := by
+  rw [List.headD_eq_head?_getD, List.head?_drop, List.getD_eq_getElem?_getD]
+
+theorem dotS_set_scaled (c : List ℝ) (alpha : ℝ) (j : Nat) (t : ℝ) (hj : j < c.length) :
+    dotS (c.set j t) ((c.set j t).map (· * alpha)) =
+      (dotS c (c.map (· * alpha)) - c.getD j 0 * (c.getD j 0 * alpha)) + t * (t * alpha) := by
+  induction c generalizing j with
+  | nil => simp at hj
+  | cons q qs ih =>
+    cases j with
+    | zero => simp [dotS_cons]; ring
+    | succ j =>
+      simp only [List.set_cons_succ, List.map_cons, dotS_cons, List.getD_cons_succ]
+      rw [ih j (by simpa using hj)]
+      ring
+
 end Logistic
+
+namespace Glm
+
+/-! ### the deviance as a plain sum -/
+
+/-- `unit_deviance` returns a value unless the power is in the rejected window `(0,1)` -/
+theorem unitDeviance_some (pw : ℝ → ℝ → ℝ) (tol6 power y yp : ℝ) (hc : powerClass tol6 power ≠ .invalid) :
+    unitDeviance pw tol6 power y yp = some ((unitDeviance pw tol6 power y yp).getD 0) := by
+  unfold unitDeviance
+  cases h : powerClass tol6 power <;> simp_all
+
+theorem deviance_foldl (pw : ℝ → ℝ → ℝ) (tol6 power : ℝ) (hc : powerClass tol6 power ≠ .invalid)
+    (step : Option ℝ → Option ℝ → Option ℝ) (hstep : ∀ a v, step (some a) (some v) = some (a + v))
+    (y yp : List ℝ) (a : ℝ) :
+    (List.zipWith (unitDeviance pw tol6 power) y yp).foldl step (some a) =
+    some (a + (List.zipWith (fun u v => (unitDeviance pw tol6 power u v).getD 0) y yp).sum) := by
+  induction y generalizing yp a with
+  | nil => simp
+  | cons yi ys ih =>
+    cases yp with
+    | nil => simp
+    | cons m ms =>
+      simp only [List.zipWith_cons_cons, List.foldl_cons, List.sum_cons]
+      rw [unitDeviance_some pw tol6 power yi m hc, hstep]
+      simp only [Option.getD_some]
+      rw [ih ms]
+      congr 1; ring
+
+theorem deviance_eq (pw : ℝ → ℝ → ℝ) (tol6 power : ℝ) (hc : powerClass tol6 power ≠ .invalid) (y yp : List ℝ) :
+    deviance pw tol6 power y yp =
+      some ((List.zipWith (fun u v => (unitDeviance pw tol6 power u v).getD 0) y yp).sum) := by
+  unfold deviance
+  rw [deviance_foldl pw tol6 power hc _ (fun _ _ => rfl) y yp 0, zero_add]
+
+end Glm
 end LinfaSpec
